@@ -165,6 +165,7 @@ class Recorder:
                 "kill_after": "--test-kill-after-sync" in flags}
         opts.update(_range(list(flags) + list(extra_args)))
         opts["v3"] = self.a.conf.hash_size != 16 or any(x > 1 for x in self.a.conf.splits)
+        opts["prehash"] = "-h" in flags
         pre_fs = self.last["fs"]
         args = list(flags) + list(extra_args)
         if midrun:
@@ -245,17 +246,43 @@ class Recorder:
                            "state": self.state(), "out": out})
         return r, out
 
-    def fix(self, *flags, sel=None):
-        r = self.a.run("fix", *flags)
+    def project_import(self, imp_stamp=None, imp_content=None):
+        """what an import directory offers: file records (for -i) and block values (for --test-import-content)"""
+        ext = {"stamp": [], "blocks": []}
+        for kind, base in (("stamp", imp_stamp), ("blocks", imp_content)):
+            if not base:
+                continue
+            for dp, dn, fn in os.walk(base):
+                for n in fn:
+                    p = os.path.join(dp, n)
+                    st = os.lstat(p)
+                    with open(p, "rb") as f:
+                        data = f.read()
+                    vals = [self.note_val(observer.vkey(self.a.classify(data[i:i + BS]))) for i in range(0, len(data), BS)]
+                    if kind == "stamp":
+                        ext["stamp"].append({"b": vals, "sz": len(data),
+                                             "mt": [st.st_mtime_ns // 10**9 - BASE_TIME, st.st_mtime_ns % 10**9]})
+                    else:
+                        ext["blocks"] += vals
+        return ext
+
+    def fix(self, *flags, sel=None, imp_stamp=None, imp_content=None):
+        ext = self.project_import(imp_stamp, imp_content)
+        extra = (["-i", imp_stamp] if imp_stamp else []) + (["--test-import-content", imp_content] if imp_content else [])
+        r = self.a.run("fix", *flags, *extra)
         self.last_result = r
         st = self.state()
-        rec = sorted((str(self.a.conf.disk_names.index(t[2])), t[3]) for t in r.tag("status") if t[1] == "recovered")
-        unr = sorted((str(self.a.conf.disk_names.index(t[2])), t[3]) for t in r.tag("status") if t[1] == "unrecoverable")
-        out = {"exit": self._exit(r), "rc": r.rc, "recovered": [list(x) for x in rec], "unrec": [list(x) for x in unr]}
+        pre = self.lines[-1]["state"]["cf"]          # only recorded files (directories and links are reported too)
+        rec = sorted((str(self.a.conf.disk_names.index(t[2])), t[3]) for t in r.tag("status")
+                     if t[1] == "recovered" and t[3] in pre.get(str(self.a.conf.disk_names.index(t[2])), {}))
+        unr = sorted((str(self.a.conf.disk_names.index(t[2])), t[3]) for t in r.tag("status")
+                     if t[1] == "unrecoverable" and t[3] in pre.get(str(self.a.conf.disk_names.index(t[2])), {}))
+        out = {"exit": self._exit(r), "rc": r.rc, "recovered": [list(x) for x in rec], "unrec": [list(x) for x in unr],
+               "disappeared": "disappeared" in r.err}
         if sel is None:
             sel = {d: sorted(self.lines[-1]["state"]["cf"][d].keys()) for d in self.D}
         self.lines.append({"e": "Fix", "args": {"present": list(range(1, self.a.conf.np + 1)), "sel": sel,
-                                                "flags": list(flags), "range": _range(flags)}, "state": st, "out": out})
+                                                "flags": list(flags), "range": _range(flags), "ext": ext}, "state": st, "out": out})
         return r, out
 
     def _fault_info(self, r, st):
